@@ -2,15 +2,24 @@ import Cactus.Lemmas.Once
 import Cactus.Lemmas.Contract
 import Cactus.Lemmas.Final
 import Cactus.Lemmas.Orphan
-import Cactus.Props.C13
+import Cactus.Props.C13   -- only for `runWith` (`run` with an explicit step budget)
 /-!
-# C01 — no premature destruction (first layer: the closure lemma)
+# C01 — no premature destruction
 
-The only step of the machine that destroys objects which still have strong handles is the group
-teardown after a passing orphan test.  `C01_closure` is the arithmetic heart of its safety: if
-counts are exact (`InvC`), records never exceed held handles (the adoption contract `P`) and the
-test passes for member `m`, then `m` has no handle outside the traced group.  The lift to whole
-histories (`InvS` preserved by every machine step) is in `Cactus.Lemmas.Safety`.
+What is proved here, in this order:
+* one-step lemmas: `C01_closure` (the arithmetic heart of the orphan test: exact counts `InvC`, the
+  adoption contract `P` and a passing test leave no handle outside the traced group) and
+  `C01_survivors_do_not_name_members` (the group handed to `drop_cycle` is closed);
+* whole histories, every state including mid-teardown: `C01_no_premature_destruction`, `C01_run`,
+  `C01_destructor_has_not_run` under `ReachableP` (the contract held in every state passed through),
+  and `C01_contract_respecting_histories`, `C01_run_contract_respecting` under the purely syntactic
+  hypothesis `Op.respects`; `C01_internal_steps_keep_contract`;
+* examples: the ring-with-tail history by evaluation, and the theorems instantiated at its end state
+  and at a state three steps into a group teardown.
+Not proved: anything about histories that break the contract — the property is false there (known
+finding D4, machine-checked counterexample in `Props/C13.lean`).
+`Cactus.Props.C13` is imported only for `runWith` (`run` with an explicit step budget), which the
+evaluation examples use.
 -/
 namespace Cactus
 open State
@@ -144,5 +153,53 @@ theorem C01_destructor_has_not_run {s : State} (h : ReachableP s) (he : s.err = 
   apply List.mem_append_left
   rw [List.mem_filterMap]
   exact ⟨ob, List.mem_of_getElem? hg, hv⟩
+
+/-! ## The theorems instantiated on the ring-with-tail history
+
+`ringTailHistory` (above) is contract-respecting and ends without error with `roots = [0]`; object 3
+(z₂) is reachable from the program's handle through the stored handles `0 → 2 → 3`. -/
+
+theorem ringTail_reach3 : (run ringTailHistory).Reach 3 :=
+  .step (a := 2) (.step (a := 0) (o := 2) (.root (by decide +kernel)) (by decide +kernel)
+    (by decide +kernel)) (by decide +kernel) (by decide +kernel)
+
+/-- `C01_run_contract_respecting`: so it is live -/
+example : (run ringTailHistory).isLive 3 = true :=
+  C01_run_contract_respecting ringTailHistory (by decide) (by decide +kernel) ringTail_reach3
+
+/-- `C01_no_premature_destruction` / `C01_destructor_has_not_run` (through `ReachableC ⇒ ReachableP`):
+its allocation is not released, its value is in place, its destructor has not run -/
+example : ∃ ob v, (run ringTailHistory).heap[3]? = some ob ∧ ob.freed = false ∧ ob.value = some v :=
+  (C01_no_premature_destruction
+    ((run_reachableC ringTailHistory (by decide)).reachableP (by decide +kernel))
+    (by decide +kernel) ringTail_reach3).2
+
+example : ∃ ob v, (run ringTailHistory).heap[3]? = some ob ∧ ob.value = some v
+    ∧ v.vid ∉ (run ringTailHistory).destroyedVids :=
+  C01_destructor_has_not_run
+    ((run_reachableC ringTailHistory (by decide)).reachableP (by decide +kernel))
+    (by decide +kernel) ringTail_reach3
+
+/-- mid-teardown: the same ring with two more objects, 4 held by the program and 5 held by 4's value;
+the program drops its handle to x and we stop three machine steps into the group teardown (x, y,
+z₁, z₂ marked dead, y's destructor body done, its fields about to be dropped).  The state is `ReachableC`, object 5 is reachable
+through `4 → 5`, and the theorem says it is live — while the four members are not. -/
+def ringTailMid : State :=
+  step (step (step (applyOp
+    ((run (ringTailHistory ++ [(.act .new, []), (.act .new, []), (.act (.store 2 1), [])])).begin [])
+    (.act (.drop 0)))))
+
+theorem ringTailMid_reachableC : ReachableC ringTailMid :=
+  .step (.step (.step (.op (.act (.drop 0)) []
+    (run_reachableC (ringTailHistory ++ [(.act .new, []), (.act .new, []), (.act (.store 2 1), [])])
+      (by decide)) (by decide +kernel) trivial)))
+
+example : ringTailMid.err = none ∧ ringTailMid.roots = [4] ∧ ringTailMid.stack.length = 5
+    ∧ ringTailMid.heap.map (·.strong) = [.uninit, .uninit, .uninit, .uninit, .cnt 1, .cnt 1] := by
+  decide +kernel
+
+example : ringTailMid.isLive 5 = true :=
+  C01_contract_respecting_histories ringTailMid_reachableC (by decide +kernel)
+    (.step (a := 4) (.root (by decide +kernel)) (by decide +kernel) (by decide +kernel))
 
 end Cactus
